@@ -4,10 +4,12 @@ import Driver.Match
 import Driver.ITS
 import Driver.SubgraphSearch
 import Driver.GraphMatcherEngine
+import Driver.Petri
+import Driver.Deficiency
 open Lean
 
 /-- All command handlers; the first one that knows the command answers. -/
-def handlers : List Driver.Handler := [Driver.Store.handle, Driver.Match.handle, Driver.ITS.handle, Driver.SubgraphSearch.handle, Driver.GME.handle]
+def handlers : List Driver.Handler := [Driver.Store.handle, Driver.Match.handle, Driver.ITS.handle, Driver.SubgraphSearch.handle, Driver.GME.handle, Driver.Petri.handle, Driver.Deficiency.handle]
 
 def dispatch (line : String) : Json :=
   match Json.parse line with
